@@ -166,8 +166,8 @@ def rewrites_of_keep(prog):
         if isinstance(rw, Prog):
             rw.funcs = list(prog.funcs) + [x for x in rw.funcs if x not in prog.funcs]
             # a second function must not reuse the first one's name
-            if any(x.startswith("let f1 ") or "let f1 " in x for x in prog.funcs) and kind.startswith("func"):
-                continue
+            if prog.funcs and kind.startswith("func"):
+                continue        # one user function per program: a second one would reuse the name
             yield kind, rw
         elif not prog.funcs:
             yield kind, rw
@@ -233,7 +233,7 @@ def family_c06(tier, seed):
             out.append((f"{tag}|{kind}", (prog, rw, kind)))
             # compositions: a second rewrite of a different kind applied to the rewritten program (DSL-level rewrites
             # only; let-style rewrites are applied last because they rename the prefix)
-            if tier == "thorough" and isinstance(rw, Prog) and not rw.lets and not rw.into and rnd2.random() < 0.08:
+            if tier == "thorough" and isinstance(rw, Prog) and not rw.lets and not rw.into and rnd2.random() < 0.02:
                 for kind2, rw2 in rewrites_of_keep(rw):
                     if kind2.split("@")[0] != kind.split("@")[0]:
                         out.append((f"{tag}|{kind}+{kind2}", (prog, rw2, f"{kind.split('@')[0]}+{kind2}")))
